@@ -21,8 +21,8 @@ theorem C02_text_parse (cmd : Str) (args : List WArg) (hc : CmdTextOK cmd)
     (h : ∀ a ∈ args, a.OK) :
     parseLine (capLine cmd args) =
       .ok (.script { label := none, output := none, command := some cmd,
-                     args := if args.isEmpty then none else some (args.map WArg.written) }) := by
-  sorry
+                     args := if args.isEmpty then none else some (args.map WArg.written) }) :=
+  parseLine_capLine cmd args hc h
 
 /-- end to end: the command receives, for every template argument, exactly its value under the
     variables (values inserted verbatim, never re-scanned), and for every `%{name}` the words of
@@ -33,7 +33,92 @@ theorem C02_text_end_to_end (vars : Vars) (cmd : Str) (args : List WArg) (hc : C
     (hs : ∀ a ∈ args, ∀ n, a = .spread n → SpreadPlain ((vars.get n).getD [])) :
     ∃ si, parseLine (capLine cmd args) = .ok (.script si) ∧ si.command = some cmd ∧
       si.label = none ∧ si.output = none ∧
-      bind vars si.args = args.flatMap (WArg.expected vars) := by
-  sorry
+      bind vars si.args = args.flatMap (WArg.expected vars) :=
+  ⟨_, C02_text_parse cmd args hc h, rfl, rfl, rfl, bind_written_opt vars args h hs⟩
+
+/-! ### non-vacuity -/
+
+/-- four arguments: one that must be quoted (it contains a space) with `\"`, `${x}` and `\${y}`;
+    an unquoted one with two `\${…}`; the empty argument; a spread -/
+def exArgs : List WArg :=
+  [.tmpl [.lit "a \"b".toList, .var "x".toList, .escVar "y".toList] false,
+   .tmpl [.escVar "p".toList, .lit "-".toList, .escVar "q".toList] false,
+   .tmpl [] false,
+   .spread "rest".toList]
+
+/-- variable values with spaces, quotes and text that looks like `${z}` -/
+def exVars : Vars :=
+  [("x".toList, "v w \"q\" ${z}".toList), ("rest".toList, "r1  r2 ${z}".toList)]
+
+/-- the hypotheses hold … -/
+theorem exCmd_ok : CmdTextOK "echo".toList := by
+  refine ⟨by decide, ?_, by decide, by decide⟩
+  intro c hc
+  simp at hc
+  rcases hc with rfl | rfl | rfl | rfl <;> decide
+
+theorem exArgs_ok : ∀ a ∈ exArgs, a.OK := by
+  intro a ha
+  simp only [exArgs, List.mem_cons, List.not_mem_nil, or_false] at ha
+  rcases ha with rfl | rfl | rfl | rfl
+  · simp [WArg.OK, Seg.TextOK, LitOK, NameTextOK, KeyOK]
+  · simp [WArg.OK, Seg.TextOK, LitOK, NameTextOK, KeyOK]
+  · simp [WArg.OK]
+  · refine ⟨by simp [NameTextOK, KeyOK], ?_⟩
+    intro c hc
+    simp at hc
+    rcases hc with rfl | rfl | rfl | rfl <;> decide
+
+theorem exSpread_ok :
+    ∀ a ∈ exArgs, ∀ n, a = .spread n → SpreadPlain ((exVars.get n).getD []) := by
+  intro a ha n hn
+  subst hn
+  simp only [exArgs, List.mem_cons, List.not_mem_nil, or_false] at ha
+  rcases ha with ha | ha | ha | ha
+  · cases ha
+  · cases ha
+  · cases ha
+  · cases ha
+    simp [exVars, Vars.get, SpreadPlain]
+
+/-- … the line is written `echo "a \"b${x}\${y}" \${p}-\${q} "" %{rest}` … -/
+theorem exLine : capLine "echo".toList exArgs =
+    "echo \"a \\\"b${x}\\${y}\" \\${p}-\\${q} \"\" %{rest}".toList := by decide
+
+/-- … the parser delivers the four written templates (quotes gone, `\"` decoded, `\${` kept) … -/
+example : parseLine "echo \"a \\\"b${x}\\${y}\" \\${p}-\\${q} \"\" %{rest}".toList =
+    .ok (.script { label := none, output := none, command := some "echo".toList,
+                   args := some ["a \"b${x}\\${y}".toList, "\\${p}-\\${q}".toList, [],
+                                 "%{rest}".toList] }) := by
+  rw [← exLine, C02_text_parse _ _ exCmd_ok exArgs_ok]
+  rfl
+
+/-- … and `echo` receives six arguments: the value of `x` verbatim (its spaces, quotes and
+    `${z}` untouched) between the literal parts, `${p}-${q}`, the empty argument, and the three
+    words of `rest` -/
+example : ∃ si, parseLine "echo \"a \\\"b${x}\\${y}\" \\${p}-\\${q} \"\" %{rest}".toList =
+      .ok (.script si) ∧ si.command = some "echo".toList ∧ si.label = none ∧ si.output = none ∧
+      bind exVars si.args =
+        ["a \"bv w \"q\" ${z}${y}".toList, "${p}-${q}".toList, [], "r1".toList, "r2".toList,
+         "${z}".toList] := by
+  obtain ⟨si, h1, h2, h3, h4, h5⟩ := C02_text_end_to_end exVars _ _ exCmd_ok exArgs_ok exSpread_ok
+  rw [exLine] at h1
+  refine ⟨si, h1, h2, h3, h4, ?_⟩
+  rw [h5]
+  decide
+
+/-- a first argument that starts with `=` is written between quotes, a later one is not -/
+example : capLine "set".toList [.tmpl [.lit "=".toList] false, .tmpl [.lit "=".toList] false] =
+    "set \"=\" =".toList := by decide
+
+/-- no argument at all -/
+example : parseLine (capLine "pwd".toList []) =
+    .ok (.script { label := none, output := none, command := some "pwd".toList, args := none }) := by
+  have h : CmdTextOK "pwd".toList := by
+    refine ⟨by decide, ?_, by decide, by decide⟩
+    intro c hc
+    simp at hc
+    rcases hc with rfl | rfl | rfl <;> decide
+  exact C02_text_parse _ [] h (by simp)
 
 end Duck
